@@ -14,7 +14,7 @@ import ast
 from ..absint import Interp, CTX, Cst, Lst, D, Obj, num, Deg
 from .. import hd
 from ..hd import HZ, SEC, expect, events_to_obligations
-from ..program import rel
+from ..program import FuncInfo,  rel
 from .. import astq
 
 RUN_OUT_SSI = {"Fn_poles": dict(s=-1), "Xi_poles": {}, "Phi_poles": {}, "Lambds": dict(s=-1), "Lab": {}}
@@ -135,8 +135,13 @@ def unit_norm(prog, run):
         sites = astq.unit_norm_sites(fi)
         f = rel(prog.mods[fi.mod].path)
         if not sites:
-            run.ob("R-unit-norm", fi.qual, "normalisation", False,
-                   "no division of a vector by its own largest-magnitude component found", witness="missing", file=f, node=fi.node)
+            # no pivot search (argmax family) at all in the function or its private helpers: the largest component cannot have been found
+            fns = [fi] + [r for c, r in prog.calls_in(fi) if isinstance(r, FuncInfo) and r.cls is None and r.node.name.startswith("_")]
+            has_arg = any(isinstance(c, ast.Call) and (astq.callee_name(prog, g, c).split(".")[-1] in ("argmax", "nanargmax", "argsort", "argmin"))
+                          for g in fns for c in ast.walk(g.node))
+            run.ob("R-unit-norm", fi.qual, "normalisation", None if has_arg else False,
+                   "no division of a vector by its own largest-magnitude component found" + (" (a pivot search exists but its use was not recognised)" if has_arg else ""),
+                   witness="missing", file=f, node=fi.node)
         for node, ok, why in sites:
             run.ob("R-unit-norm", fi.qual, "normalisation", ok, why, witness=why, file=f, node=node)
 
